@@ -184,6 +184,19 @@ int main(int argc, char** argv) {
       CL::ClipperOffset co; co.AddPath(q, CL::JoinType::Round, open ? CL::EndType::Round : CL::EndType::Polygon); CL::Paths64 os; co.Execute(5.0 * (double)M, os);
       bump(C_LIB, 13); if (sp.size() != q.size()) bump(C_NONTRIVIAL); },
     [&](u64 i) { bool open = i % 2; i /= 2; bool ell = i % 2; i /= 2; Case k; k.set("f", "longpaths").set("n", LENS[i]).set("shape", ell ? "ellipse" : "zigzag").set("open", open).set("mag", magclass); return k.s(); }});
+  // ---- F8d: star polygons {n/k} (every edge passes right through a central rectangle; the vertices sit round it in every direction): RectClip /
+  // RectClipLines produce about 2.5 output points per input vertex, the sweep meets n*(k-1) crossings and winding numbers up to k
+  static std::vector<std::pair<int, int>> STARS; if (STARS.empty()) for (int n = 5; n <= 41; ++n) for (int k = 2; 2 * k < n; ++k) { int x = n, y = k; while (y) { int t = x % y; x = y; y = t; } if (x == 1) STARS.push_back({n, k}); }
+  if (magclass <= 1 && want("stars")) fam.push_back({"stars", (u64)STARS.size() * 3, [&](u64 i, bool) {
+      int ri = i % 3; i /= 3; int n = STARS[i].first, k = STARS[i].second; static const i64 RR[3] = {100, 300, 600};
+      CL::Path64 q; for (int j = 0; j < n; ++j) { double t = 2 * 3.14159265358979323846 * (double)((j * k) % n) / n; q.emplace_back((int64_t)llround(1000.0 * std::cos(t)) * M, (int64_t)llround(1000.0 * std::sin(t)) * M); }
+      CL::Rect64 rc(-RR[ri] * M, -RR[ri] * M, RR[ri] * M, (RR[ri] + 37) * M);
+      CL::Paths64 in{q}; CL::Paths64 a1 = CL::RectClip(rc, in), a2 = CL::RectClipLines(rc, in);
+      { class CL::RectClip64 o1(rc); CL::Paths64 b1 = o1.Execute(in), b1b = o1.Execute(in); class CL::RectClipLines64 o2(rc); CL::Paths64 b2 = o2.Execute(in); }
+      BoolOut o = VFC_NS::boolop(2, ri % 2, VFC_NS::from64(in), Paths(), Paths(), true, false);
+      CL::ClipperOffset co; co.AddPath(q, CL::JoinType::Miter, CL::EndType::Polygon); CL::Paths64 os; co.Execute((ri - 1) * 20.0 * (double)M, os);
+      bump(C_LIB, 8); if (a1.size() + a2.size() > 1) bump(C_NONTRIVIAL); },
+    [&](u64 i) { int ri = i % 3; i /= 3; Case k; k.set("f", "stars").set("n", STARS[i].first).set("k", STARS[i].second).set("rect", ri).set("mag", magclass); return k.s(); }});
   // ---- F9: C export functions with null pointers, empty arrays and small paths
   if (magclass == 0 && want("exports")) fam.push_back({"exports", N2 * 5 * 3, [&](u64 i, bool) {
       int variant = i % 3; i /= 3; int ct = i % 5; i /= 5; const Path& p = P2[i];
